@@ -2,11 +2,12 @@
 """prints the brief for a fresh seeded-breakage agent: ONLY the property record and a scratch worktree path (nothing from /verif)"""
 import json, sys
 pid = sys.argv[1]
+rnd = sys.argv[2] if len(sys.argv) > 2 else ""   # round tag: worktree /tmp/seed<rnd>-Cxx
 rec = [json.loads(l) for l in open('/verif/properties.jsonl') if json.loads(l)['id'] == pid][0]
-wt = f"/tmp/seed-{pid}"
+wt = f"/tmp/seed{rnd}-{pid}"
 print(f"""You are a careful Rust engineer doing *regression seeding* for a verification study.
 
-Work ONLY inside the scratch git worktree {wt} - a checkout of the Rust project reinterpretcat/vrp (a rich Vehicle Routing Problem solver; workspace crates vrp-core, vrp-pragmatic, vrp-scientific, vrp-cli, rosomaxa and examples). Never read or touch /repo, /verif or any other /tmp/seed-* directory. There is no network: always pass `--offline` to cargo. The machine is shared: use at most 4 build jobs (`-j 4`) and `--test-threads 4`.
+Work ONLY inside the scratch git worktree {wt} - a checkout of the Rust project reinterpretcat/vrp (a rich Vehicle Routing Problem solver; workspace crates vrp-core, vrp-pragmatic, vrp-scientific, vrp-cli, rosomaxa and examples). Never read or touch /repo, /verif or any other /tmp/seed* directory. There is no network: always pass `--offline` to cargo. The machine is shared: use at most 4 build jobs (`-j 4`) and `--test-threads 4`.
 
 The property (verbatim record):
 
